@@ -335,6 +335,8 @@ def jobs(tier):
             # the attribute under study takes every value kind; the others are absent
             p = dict(base=base, args=True, nargs=[0, 1], kinds_status=none_, kinds_status_code=none_, kinds_code=none_, primary=a)
             p["kinds_" + a] = VALUE_KINDS
+            if base != "plain":
+                p["int_range"] = (395, 431)
             out.append(dict(name=f"http:{base}:{a}", harness="rv.props.c19:h_http", params=p, max_wall_s=wall, weight=3))
         out.append(dict(name=f"sql:{base}", harness="rv.props.c19:h_sql", params=dict(base=base), max_wall_s=wall, weight=2))
     # which attribute wins: each of the three absent / None / a concrete integer
